@@ -26,6 +26,7 @@ def execute(c):
     tmpl = np.array(c["tmpl"], dtype="float64")
     labels = np.array(c["labels"], dtype="int32")
     t0, l0 = tmpl.copy(), labels.copy()
+    wx = core.Watch(x)
     nout = len(np.unique(labels))
     if c["api"] == "kernel":
         out = ops.tinterpolate(x, tmpl, labels, np.zeros(nout, dtype="u1"))
@@ -45,7 +46,8 @@ def execute(c):
     c["labels_after"] = [int(v) for v in labels.tolist()]
     if not (np.array_equal(t0, tmpl) and np.array_equal(l0, labels)):
         c["labels_after"] = c["labels_after"] + [-1]
-    c["x"] = [str(int(v)) for v in x.tolist()]
+    c["inmod"] = wx.changed()
+    c["x"] = [str(int(v)) for v in c["xi"]]
     return c
 
 
